@@ -22,6 +22,9 @@ CLAIMS["C09"] = ("proof", "contract-based deductive verification: WP VCs over go
 CLAIMS["C08"] = ("proof", "contract-based deductive verification: WP VCs over go/ssa, ghost call traces, class-hierarchy dispatch of Reporter()/String()/Meta() in specifications; discharged by z3/cvc5",
          "Unbounded proof that every check is registered under the name its own Reporter() returns (precondition of baseParsedRule/newParsedRule, an obligation at all 35 registration sites in baseRules, config.parseRule and GetChecksForEntry), that config.isEnabled disables a check iff its name (or String()) is listed / it is not in a non-empty enabled list / a rule comment disables it and the block is not locked, with AlwaysEnabled checks immune, and that parsedRule.isEnabled consults the state gate, file-level disables, every matching rule{} block (disable in any matching block wins; no block skipped before enabling) and then the global lists, always with the check's own name.",
          "A11: String()/Reporter()/Meta() of check values are deterministic, effect-free functions of the receiver; slices.Contains per A5; regexp matching of --disabled patterns and the tag-suffixed name form are outside the contract; Problem.Reporter of emitted problems is not yet under contract", "DESIGN.md §7 C08")
+CLAIMS["C10"] = ("other", "contract-based deductive verification: the reader's flags are proved to refine the exclusion automaton of the property on live lines; three excluded-line clauses fail and are recorded as known findings",
+         "Unbounded proof of ContentReader.emptyCurrentLine (newlines kept, everything before the first pint comment or the whole line inside a block blanked, nothing else changed), of parseComments on live lines (no marker: text and flags unchanged; next-line / begin / line / file markers move the automaton as documented) and on excluded lines without pint comments (fully blank, automaton step independent of the text), and of readNextLine (the line table is built from the blanked text). Three clauses about excluded lines that carry pint comments do not hold on the pinned tree; they are genuine defects, replayed on the real code and listed in known_findings.txt, which is why the level is 'other' and not 'proof'.",
+         "comments.Parse is abstract (any list of typed comments with offsets); yaml.v3's treatment of blank lines of different length is not modelled; ignore/file relies on discovery dropping the file body", "DESIGN.md §7 C10")
 NA = {
  "C19": "two-run relational property of two recursive traversals over a third-party AST (yaml.Node) quantified over wrappers of arbitrary depth; no contract within reach of the generator can state it (DESIGN.md §8)",
 }
